@@ -32,7 +32,7 @@ REPO = os.environ.get("VERIF_REPO", "/repo")
 sys.path.insert(0, os.path.join(REPO, "src", "exp2python", "python"))
 sys.dont_write_bytecode = True
 
-from stepcode.SimpleDataTypes import INTEGER, STRING, REAL, LOGICAL, BOOLEAN, NUMBER, Unknown  # noqa: E402
+from stepcode.SimpleDataTypes import INTEGER, STRING, REAL, LOGICAL, BOOLEAN, NUMBER, BINARY, Unknown  # noqa: E402
 from stepcode import AggregationDataTypes as A                               # noqa: E402
 from stepcode.BaseType import Aggregate as BaseTypeAggregate                 # noqa: E402
 
@@ -41,8 +41,8 @@ BUILTIN = ("SIZEOF", "HIINDEX", "LOINDEX", "HIBOUND", "LOBOUND", "VALUE_UNIQUE")
 from stepcode.ConstructedDataTypes import ENUMERATION, SELECT                # noqa: E402
 E1 = ENUMERATION("E1", " ".join("m%d" % i for i in range(16)))
 E2 = ENUMERATION("E2", " ".join("m%d" % i for i in range(16)))
-BASES = [INTEGER, STRING, REAL, BOOLEAN, LOGICAL, NUMBER, E1, E2]
-BASE_NAMES = ["INTEGER", "STRING", "REAL", "BOOLEAN", "LOGICAL", "NUMBER", "E1", "E2"]
+BASES = [INTEGER, STRING, REAL, BOOLEAN, LOGICAL, NUMBER, E1, E2, BINARY]
+BASE_NAMES = ["INTEGER", "STRING", "REAL", "BOOLEAN", "LOGICAL", "NUMBER", "E1", "E2", "BINARY"]
 SCOPE = sys.modules[__name__]
 
 
@@ -61,7 +61,7 @@ def parse_ty(t):
             raise ValueError("select mask")
         return ("sel", m)
     if len(t) == 1:
-        if t not in "01234567":
+        if t not in "012345678":
             raise ValueError("type tag")
         return ("s", int(t))
     if t[0] in INNER:
@@ -102,7 +102,9 @@ def mk_val(t, v, declared=None):
     if b == 0:
         return INTEGER(v)
     if b == 1:
-        return STRING("s%d" % v)
+        return STRING("s%d" % v)        # never the text of a BINARY value: STRING and BINARY values are never python-equal here
+    if b == 8:
+        return BINARY(format(v, "b"))
     if b == 2:
         return REAL(v)                  # whole numbers: REAL(1.0) == INTEGER(1) == True in python
     if b in (6, 7):
@@ -130,6 +132,8 @@ def show_val(x):
     if isinstance(x, LOGICAL):
         tv = OBJECTS.get(id(x))
         return "val %s %d" % tv if tv else "val ? %r" % (x,)
+    if isinstance(x, BINARY):
+        return "val 8 %d" % int(x, 2)
     if isinstance(x, INTEGER):
         return "val 0 %d" % int(x)
     if isinstance(x, STRING) and x[:1] == "s":
